@@ -34,7 +34,7 @@ def run_parallel(rows, name, nproc, extra=None, timeout=3000):
         c = 1.0 + sum(len(t["pairs"]) + len(t["lookups"]) for t in r["tables"]) / 60.0
         c *= 2.0 if r["cfg"]["width"] == "wide" else 1.0
         c *= 0.15 if len(r["kinds"]) <= 2 else 1.0
-        return c * (8.0 if r["cfg"]["zk"] else 1.0)
+        return min(c, 8.0) * (8.0 if r["cfg"]["zk"] else 1.0)
 
     parts = [[] for _ in range(nproc)]
     load = [0.0] * nproc
@@ -135,7 +135,7 @@ def run(chk, tier):
     th = threading.Thread(target=models)
     th.start()
     # ---- scenario lattice, catalogue and rule
-    r = common.tlc("LookupLayout", cfg="LookupLayout", workers=4, timeout=900)
+    r = common.tlc("LookupLayout", cfg="LookupLayout_t" if thorough else "LookupLayout", workers=4, timeout=900)
     if not r.ok:
         raise ToolError("spec LookupLayout violates %s" % r.violated)
     chk.add_tlc("LookupLayout: scenario lattice with layout obligations (3 widths)", r)
@@ -161,6 +161,11 @@ def run(chk, tier):
     # ---- selection
     for i, s in enumerate(scen):
         s["id"] = scenario_id(s, i)
+    # heavy repetition (one entry looked up 2^16 - 1, 2^16, 2^16 + 5[, 2^17] times): always replayed, honest run only
+    heavy = [s for s in scen if any(c["m"] > 1000 for c in s["classes"])]
+    scen = [s for s in scen if s not in heavy]
+    if len(heavy) < 3:
+        raise ToolError("LookupLayout printed only %d heavy-repetition scenarios" % len(heavy))
     if thorough:
         chosen = list(scen)
     else:
@@ -194,6 +199,10 @@ def run(chk, tier):
         else:
             row["cfg"] = rnd.choice(by_width[w]["strong"])
         rows.append(row)
+    for s in heavy:
+        rows.append({"id": s["id"], "tables": s["tables"], "expect": s["expect"], "interleave": False, "kinds": ["none"], "strategies": ["plain"],
+                     "classes": s["classes"], "cfg": std, "pis": False})
+    chk.extra["heavy_repetition"] = {s["id"]: max(c["m"] for c in s["classes"]) for s in heavy}
     import time
     t0 = time.time()
     res = run_parallel(rows, "c08_run", 8, extra=["--max-cor", "30" if thorough else "24"], timeout=14000 if thorough else 1500)
@@ -296,6 +305,34 @@ def judge(chk, byid, res, rule, variant):
                 chk.sample({"scenario": s["id"], "corruption": payload["corruption"], "observed": payload["observed"]})
     chk.nontrivial = len(distinct)
     chk.extra["outcomes"] = stats
+    # ---- guards requested for seeded-change sensitivity
+    for hid, m in chk.extra.get("heavy_repetition", {}).items():
+        ok = [x for x in res if x.get("id") == hid and x.get("complete") is True and not x["wrong_outputs"] and not x.get("layout")]
+        ctl = [x for x in res if x.get("id") == hid and x.get("kind") == "none" and x.get("accepted")]
+        if not ok or not ctl:
+            if any(x.get("id") == hid and x.get("complete") is False for x in res):
+                continue            # already reported as a violation above
+            raise ToolError("vacuity: the heavy-repetition scenario %s (%d lookups of one entry) did not complete" % (hid, m))
+    g = {}
+    for x in res:
+        if "kind" not in x or not x.get("violated") or "table" not in x.get("desc", {}):
+            continue
+        t, nt = x["desc"]["table"], x.get("nt", 1)
+        if x["kind"] in ("out_notin", "out_other_entry", "pair_other_table") and nt >= 2 and t == nt - 1:
+            g[("last-table", x["kind"], x["strategy"])] = g.get(("last-table", x["kind"], x["strategy"]), 0) + 1
+            if nt == 2:
+                g[("second-of-two", x["kind"], x["strategy"])] = g.get(("second-of-two", x["kind"], x["strategy"]), 0) + 1
+        if x["kind"] in ("table_cell", "table_cell_unused", "table_and_lookup") and t == 0:
+            k = ("first-table/%s" % ("single" if nt == 1 else "multi"), x["kind"], x["strategy"])
+            g[k] = g.get(k, 0) + 1
+    chk.extra["targeted_cases"] = {"/".join(k): v for k, v in sorted(g.items())}
+    need = [(w, k, st) for w in ("last-table", "second-of-two") for k in ("out_notin", "out_other_entry", "pair_other_table")
+            for st in ("plain", "ext_plain", "ext_shift")]
+    need += [(w, k, st) for w in ("first-table/single", "first-table/multi") for k in ("table_cell", "table_cell_unused", "table_and_lookup")
+             for st in ("plain", "ext_plain")]
+    for k in need:
+        if g.get(k, 0) == 0:
+            raise ToolError("vacuity: no violating case %s/%s under %s" % k)
     chk.extra["honest_circuits_complete"] = complete
     chk.extra["ext_shift_accepted_violating"] = forged
     viol = sum(v for k, v in stats.items() if "/violating/" in k)
